@@ -18,6 +18,13 @@ Fixpoint hex (s : string) : bytes :=
   end.
 Definition rep (x n : Z) : bytes := repeat x (Z.to_nat n).
 Definition cat (l : list bytes) : bytes := List.concat l.
+(* edits of a base file *)
+Definition slice (b : bytes) (lo hi : Z) : bytes := firstn (Z.to_nat (hi - lo)) (skipn (Z.to_nat lo) b).
+Definition put8 (b : bytes) (off v : Z) : bytes :=
+  firstn (Z.to_nat off) b ++ v :: skipn (Z.to_nat (off + 1)) b.
+Definition put32 (b : bytes) (off v : Z) : bytes :=
+  firstn (Z.to_nat off) b ++
+  [v / 16777216 mod 256; v / 65536 mod 256; v / 256 mod 256; v mod 256] ++ skipn (Z.to_nat (off + 4)) b.
 
 (* ---- observed outcomes ---- *)
 Inductive hobs := HOk (tracks : list track) (d : Z) | HErr | HPanic.
